@@ -22,12 +22,16 @@ impl EventSource for Sleep {
         // use afterwards: keep it alive with a handle
         let _handle = co_get_handle(&co);
         let cancel = co_cancel_data(&co);
-        // put the coroutine into the timer list
+        let dur = self.dur;
         let sleep_co = Arc::new(AtomicOption::some(co));
-        get_scheduler().add_timer(self.dur, sleep_co.clone());
+        // register the cancel data before the timer is armed. afterwards the coroutine
+        // can be resumed, `self` is gone and the coroutine may already block somewhere
+        // else: a registration done then would replace the new one, and a cancel of
+        // the coroutine would find nobody to wake
+        cancel.set_co(sleep_co.clone());
+        // put the coroutine into the timer list
+        get_scheduler().add_timer(dur, sleep_co);
 
-        // register the cancel data
-        cancel.set_co(sleep_co);
         // re-check the cancel status
         if cancel.is_canceled() {
             unsafe { cancel.cancel() };
